@@ -140,15 +140,34 @@ func panicClass(msg string) string {
 	return b.String()
 }
 
+// iterBomb is thrown by the harness-controlled element decoders once a call has invoked
+// them far more often than its input has bytes: the refutation is established, so the call
+// is aborted instead of being left to loop up to 2^32 times.
+type iterBomb struct{}
+
+var iterLimit = 1 << 62
+
+func countDecode(counter *int) {
+	*counter++
+	if elemDecodes+objDecodes > iterLimit {
+		panic(iterBomb{})
+	}
+}
+
 // call runs f under recover and measures TotalAlloc growth and element decodes.
-func call(o *outcome, f func() (int, error)) {
+func call(o *outcome, l int, f func() (int, error)) {
 	var m0, m1 runtime.MemStats
 	elemDecodes = 0
 	objDecodes = 0
+	iterLimit = 8*l + 4096
 	runtime.ReadMemStats(&m0)
 	func() {
 		defer func() {
 			if p := recover(); p != nil {
+				if _, ok := p.(iterBomb); ok {
+					o.err = fmt.Errorf("aborted by the harness: element decoders invoked more than %d times", iterLimit)
+					return
+				}
 				o.panicked = true
 				o.panicFn = panicSite()
 				o.panicMsg = fmt.Sprint(p)
@@ -159,6 +178,7 @@ func call(o *outcome, f func() (int, error)) {
 	runtime.ReadMemStats(&m1)
 	o.alloc = m1.TotalAlloc - m0.TotalAlloc
 	o.iters = elemDecodes + objDecodes
+	iterLimit = 1 << 62
 }
 
 // allocProfile is the exact per-site account of one re-run of a call (MemProfileRate=1).
@@ -295,7 +315,7 @@ func (r *runner) exec(cs *Case) (outcome, func() (int, error)) {
 		o.err = fmt.Errorf("unknown case family/target %s/%s", cs.Fam, cs.Tgt)
 		return o, nil
 	}
-	call(&o, f)
+	call(&o, len(in), f)
 	return o, f
 }
 
@@ -319,7 +339,11 @@ func judge(cs *Case, o *outcome, f func() (int, error)) []verdict {
 		// TotalAlloc is the trigger; the exact profile of a re-run decides (see profileAllocs)
 		pr := allocProfile{site: "unattributed", nonErr: int64(o.alloc)}
 		if f != nil {
-			pr = profileAllocs(func() { f() })
+			pr = profileAllocs(func() {
+				elemDecodes, objDecodes, iterLimit = 0, 0, 8*l+4096
+				defer func() { iterLimit = 1 << 62 }()
+				f()
+			})
 		}
 		if pr.nonErr > int64(bound) {
 			vs = append(vs, verdict{"alloc:" + pr.site,
